@@ -37,8 +37,8 @@ RULE = (
     "cases from one SplitMix64 stream: a real PPO / A2C / DQN / SAC / TD3 / DDPG model (net_arch=[4], CPU) trained for "
     "2-4 rollouts (on-policy) or 16-40 steps (off-policy) on a random 3-dim Box environment with Discrete / Box / "
     "MultiDiscrete / MultiBinary actions, 1-3 envs, episode ends of both kinds; hyper-parameters drawn per case: gamma, "
-    "constant / linear / affine learning-rate schedule, PPO clip_range (constant or scheduled) 0.05-0.3, clip_range_vf "
-    "None/0.05/0.2/1, ent_coef 0-0.5, vf_coef 0.25-2, advantage normalisation on/off, minibatch sizes dividing / not "
+    "constant / linear / affine learning-rate schedule, PPO clip_range 0.05-0.3 and clip_range_vf None/0.05/0.2/1 "
+    "(constant, or scheduled down to a quarter of the initial value), ent_coef 0-0.5, vf_coef 0.25-2, advantage normalisation on/off, minibatch sizes dividing / not "
     "dividing / equal to the rollout (ragged and length-1 minibatches), 1-3 epochs, max_grad_norm 0.01-100, shared / "
     "separate / no trainable feature extractor, DQN target_update_interval 1-1000 and reward scale 1-3, SAC fixed / "
     "learned entropy coefficient and 1-3 critics, TD3 policy_delay 1-3, target noise 0.05-0.5 with clip 0.1-0.5, "
@@ -153,7 +153,7 @@ def gen_case(rng, widen, thorough):
 
 
 def gen_cases(ctx):
-    return [gen_case(ctx.rng, ctx.widen, ctx.thorough) for _ in range(ctx.budget(36, 900))]
+    return [gen_case(ctx.rng, ctx.widen, ctx.thorough) for _ in range(ctx.budget(96, 960))]
 
 
 def shrink_candidates(case):
@@ -501,8 +501,10 @@ def hand_clip(grads, max_norm):
     return {n: (None if g is None else g * coef) for n, g in grads.items()}, norm
 
 
-def cmp_grads(captured, ref, owned):
-    """captured: name -> tensor|None at optimizer.step; ref: name -> tensor|None.  Returns None or a detail dict."""
+def cmp_grads(captured, ref, owned, strict_finite=True):
+    """captured: name -> tensor|None at optimizer.step; ref: name -> tensor|None.  Returns None or a detail dict.
+    strict_finite: a gradient that is finite on one side only is a difference (oracle, same float32 arithmetic);
+    otherwise such a tensor is skipped (Lean evaluates at double precision, overflow points differ)."""
     import torch as th
 
     for n in owned:
@@ -517,7 +519,7 @@ def cmp_grads(captured, ref, owned):
         if c.shape != r.shape:
             return {"param": n, "why": "shape", "captured": list(c.shape), "reference": list(r.shape)}
         if not bool(th.isfinite(c).all()) or not bool(th.isfinite(r).all()):
-            if bool(th.isfinite(c).all()) != bool(th.isfinite(r).all()):
+            if strict_finite and bool(th.isfinite(c).all()) != bool(th.isfinite(r).all()):
                 return {"param": n, "why": "non-finite"}
             continue
         scale = max(float(c.abs().max()), float(r.abs().max()))
@@ -1137,7 +1139,7 @@ def check_cases(ctx, cases):
                     m = g.numel()
                     grads[n] = th.tensor(flat[k:k + m], dtype=th.float64).to(th.float32).reshape(g.shape)
                     k += m
-            bad = cmp_grads(st["grads"], grads, sc.rec.owned[st["opt"]])
+            bad = cmp_grads(st["grads"], grads, sc.rec.owned[st["opt"]], strict_finite=False)
             if bad is not None:
                 rep.disagree("grad", case, bad, {"model_loss": sc.info.get("loss")}, note=sc.label)
             else:
